@@ -62,8 +62,8 @@ MASK = {
     ],
     "PCTSPEnv": [
         Lit("unvisited", "cell", key="visited", sign=-1),
-        Lit("min-prize", "cmp", big={"cur_total_prize"}, small=set(), strict=False, conj=False, const=-1, alt=True,
-            why="the depot opens exactly when the collected prize reaches the requirement (1 after normalisation)"),
+        Lit("min-prize", "cmp", big={"cur_total_prize"}, small={"prize_required"}, strict=False, conj=False, const=0, alt=True,
+            why="the depot opens exactly when the collected prize reaches the instance's requirement td['prize_required']"),
     ],
     "MTVRPEnv": [
         Lit("unvisited", "cell", key="visited", sign=-1),
@@ -189,8 +189,8 @@ CHECK = {
     ],
     "PCTSPEnv": [
         Lit("no-duplicates", "cmp", params_big={"actions"}, params_small={"actions"}, strict=True, conj=False, const=0),
-        Lit("min-prize", "cmp", big={"real_prize"}, params_big={"actions"}, small=set(), strict=False, conj=False, const=-1,
-            why="collected prize reaches the requirement (or everything was visited)"),
+        Lit("min-prize", "cmp", big={"real_prize"}, params_big={"actions"}, small={"prize_required"}, strict=False, conj=False, const=0,
+            why="collected prize reaches the instance's requirement td['prize_required'] (or everything was visited)"),
     ],
     "PDPEnv": [
         _perm,
